@@ -31,20 +31,20 @@ mpre = M.opaque("mpre", [DiffO], Pre, impl=None, note="patching.make_pre (specs.
 pfp = M.opaque("pfp", [Pre, HW, Rb, BOOL, OptRef, BOOL], PatchT, impl=None, note="patch_from_pre -> make_patch (not under contract)")
 su = M.opaque("su", [DiffO], DiffO, impl=None, note="patching.strip_unchanged (specs.patching)")
 
-M.contract(F, "<get_rulebook>", params=dict(hw=HW), ret=Rb, trusted=True, ensures=["result == grb(hw)"], properties=["C16"],
+M.contract(F, "<get_rulebook>", params=dict(hw=HW), ret=Rb, trusted=True, ensures=["result == grb(hw)"], properties=["C16", "C02"],
            note="assumed: the provider returns an equal rulebook for the same hw (C18) and callers do not modify it (C20)")
 M.contract(F, "<apply_acl>", params=dict(config=Tree, rules=Acl, with_annotations=BOOL), defaults=dict(with_annotations=False), ret=Tree,
-           trusted=True, ensures=["result == aacl(config, rules, with_annotations)"], properties=["C16"], note="proved in specs.patching; pure")
+           trusted=True, ensures=["result == aacl(config, rules, with_annotations)"], properties=["C16", "C02"], note="proved in specs.patching; pure")
 M.contract(F, "<make_diff>", params=dict(old=Tree, new=Tree, rb=Rb, acl_rules_list=AclList), ret=DiffO, trusted=True,
-           ensures=["result == mdiff(old, new, rb, acl_rules_list)"], properties=["C16"],
+           ensures=["result == mdiff(old, new, rb, acl_rules_list)"], properties=["C16", "C02"],
            note="proved in specs.diffrb: a function of its arguments, which it does not modify")
-M.contract(F, "<make_pre>", params=dict(diff=DiffO), ret=Pre, trusted=True, fresh_result=True, ensures=["result == mpre(diff)"], properties=["C16"],
+M.contract(F, "<make_pre>", params=dict(diff=DiffO), ret=Pre, trusted=True, fresh_result=True, ensures=["result == mpre(diff)"], properties=["C16", "C02"],
            note="proved in specs.makepre: builds a fresh pre, diff unmodified")
 M.contract(F, "<patch_from_pre>", params=dict(pre=Pre, hw=HW, rb=Rb, add_comments=BOOL, ref_track=OptRef, do_commit=BOOL),
            defaults=dict(ref_track=None, do_commit=True), ret=PatchT, trusted=True, modifies=["pre"],
-           ensures=["result == pfp(old(pre), hw, rb, add_comments, ref_track, do_commit)"], properties=["C16"],
+           ensures=["result == pfp(old(pre), hw, rb, add_comments, ref_track, do_commit)"], properties=["C16", "C02"],
            note="ASSUMED: the patch is a function of (pre, hw, rb, flags); logic functions may modify the pre they are given, nothing else")
-M.contract(F, "<strip_unchanged>", params=dict(diff=DiffO), ret=DiffO, trusted=True, ensures=["result == su(diff)"], properties=["C16"],
+M.contract(F, "<strip_unchanged>", params=dict(diff=DiffO), ret=DiffO, trusted=True, ensures=["result == su(diff)"], properties=["C16", "C02"],
            note="proved in specs.patching; pure")
 
 M.contract(F, "_diff_and_patch",
@@ -58,7 +58,7 @@ M.contract(F, "_diff_and_patch",
                     "aacl(new, acl_rules, add_comments) if acl_rules is not None else new, "
                     "rb if rb is not None else grb(device.hw), [acl_rules, filter_acl_rules])), device.hw, "
                     "rb if rb is not None else grb(device.hw), add_comments, ref_track, do_commit)"],
-           canaries=["result[0] == mdiff(old, new, grb(device.hw), [acl_rules, filter_acl_rules])"], properties=["C16"],
+           canaries=["result[0] == mdiff(old, new, grb(device.hw), [acl_rules, filter_acl_rules])"], properties=["C16", "C02"],
            note="device mode: the patch is built from the FULL diff; unchanged rows are stripped for display afterwards")
 M.contract(F, "_read_old_new_diff_patch", params=dict(old=Tree, new=Tree, hw=HW, add_comments=BOOL),
            ret=U.tuple("RD4", [Rb, DiffO, Pre, PatchT]),
@@ -66,7 +66,7 @@ M.contract(F, "_read_old_new_diff_patch", params=dict(old=Tree, new=Tree, hw=HW,
                     "result[1] == su(mdiff(old, new, grb(hw), []))",
                     "result[2] == mpre(su(mdiff(old, new, grb(hw), [])))",
                     "result[3] == pfp(mpre(mdiff(old, new, grb(hw), [])), hw, grb(hw), add_comments, None, True)"],
-           canaries=["result[3] == pfp(mpre(su(mdiff(old, new, grb(hw), []))), hw, grb(hw), add_comments, None, True)"], properties=["C16"],
+           canaries=["result[3] == pfp(mpre(su(mdiff(old, new, grb(hw), []))), hw, grb(hw), add_comments, None, True)"], properties=["C16", "C02"],
            note="file mode: the same pipeline (this is what fix 99d10ce established); the pre shown to the user is rebuilt from the stripped diff")
 
 _q = {c.qual: c for c in M.contracts}
@@ -80,10 +80,10 @@ for fn in ("_diff_and_patch", "_read_old_new_diff_patch"):
 M.export(rulebook=PyConstObj("rulebook"), patching=PyConstObj("patching"))
 
 M.lemma("absent_acls_do_not_filter", vars=dict(o=Tree, n=Tree, rb=Rb), hyps=[], goal="mdiff(o, n, rb, [None, None]) == mdiff(o, n, rb, [])",
-        assumed=True, pattern="mdiff(o, n, rb, [None, None])", properties=["C16"],
+        assumed=True, pattern="mdiff(o, n, rb, [None, None])", properties=["C16", "C02"],
         note="from make_diff's proved contract in specs.diffrb (lemma none_acls_are_skipped: None entries of the ACL list are skipped)")
 M.lemma("front_ends_agree", vars=dict(old=Tree, new=Tree, hw=HW, ac=BOOL), hyps=[],
         goal="su(mdiff(old, new, grb(hw), [None, None])) == su(mdiff(old, new, grb(hw), [])) and "
              "pfp(mpre(mdiff(old, new, grb(hw), [None, None])), hw, grb(hw), ac, None, True) == "
              "pfp(mpre(mdiff(old, new, grb(hw), [])), hw, grb(hw), ac, None, True)",
-        use=["absent_acls_do_not_filter"], properties=["C16"])
+        use=["absent_acls_do_not_filter"], properties=["C16", "C02"])
